@@ -36,7 +36,8 @@ class Gen:
                 for a in r.permutation(["start", "min", "max", "nominal"])[:int(r.randint(1, 3))]:
                     mods.append((str(a), int(r.randint(0, 50))))
             value = int(r.randint(0, 99)) if r.rand() < 0.35 else None
-            comment = "about %s" % name if r.rand() < 0.3 else ""
+            # comments: none, plain, and with escaped quotes inside, at the very beginning and at the very end of the text
+            comment = ["about %s" % name, 'pin \\"%s\\" of it' % name, '\\"%s\\"' % name, 'named \\"%s\\"' % name][r.randint(4)] if r.rand() < 0.4 else ""
             decls.append(dict(name=name, dims=ddims, mods=mods, value=value, comment=comment))
         text = " ".join(prefixes + [typ + ("[%s]" % ", ".join(map(str, cdims)) if cdims else "")]) + " " + ", ".join(
             d["name"] + ("[%s]" % ", ".join(map(str, d["dims"])) if d["dims"] else "") +
